@@ -177,6 +177,11 @@ func (c *c03) DumpCase(seed uint64, idx int) []Case {
 				hp, _ := c.genProject(r)
 				a.History = append(a.History, hp)
 			}
+			if r.chance(500) {
+				// the same paths with slightly different content of the same length, processed
+				// earlier in this process (a file edited between two parses)
+				a.History = append(a.History, editedCopy(&p, r))
+			}
 		}
 		if e == 3 || (e > 3 && r.chance(250)) {
 			for k := 1 + r.n(3); k > 0; k-- {
@@ -557,4 +562,28 @@ func diffShape(what string) string {
 		parts = parts[len(parts)-2:]
 	}
 	return "json:" + strings.Join(parts, "/")
+}
+
+// editedCopy returns the project with one digit changed in each of up to three files
+// (same paths, same lengths, different bytes).
+func editedCopy(p *Project, r *rng) Project {
+	q := p.clone()
+	files := sortedKeys(q.Files)
+	for k := 0; k < 3 && len(files) > 0; k++ {
+		path := files[r.n(len(files))]
+		b := append([]byte(nil), q.content(path)...)
+		var digits []int
+		for i, c := range b {
+			if c >= '0' && c <= '9' && i > 12 {
+				digits = append(digits, i)
+			}
+		}
+		if len(digits) == 0 {
+			continue
+		}
+		i := digits[r.n(len(digits))]
+		b[i] = '0' + (b[i]-'0'+1+byte(r.n(8)))%10
+		q.set(path, b)
+	}
+	return q
 }
